@@ -139,6 +139,19 @@ var targets = []targetDef{
 	{"ipv6-literal", "2001:db8::1", "", false},
 	{"other", "other.test", "", false},
 	{"loopback-ip", "127.0.0.1", "", true},
+	// other spellings of a name: the rule lists are regular expressions on the host as the client wrote it
+	{"origin-upper-case", "ORIGIN.TEST", "", false},
+	{"origin-trailing-dot", "origin.test.", "", false},
+}
+
+// normDial is the spelling under which the simulated network records a dialled address (names are
+// case-insensitive and a trailing dot is the same name).
+func normDial(addr string) string {
+	h, p, err := net.SplitHostPort(addr)
+	if err != nil {
+		return strings.ToLower(addr)
+	}
+	return net.JoinHostPort(strings.TrimSuffix(strings.ToLower(h), "."), p)
 }
 
 func bracket(h string) string {
@@ -201,7 +214,13 @@ func scenario(x *explore.X, product int) {
 	if product == 3 {
 		ctFree = x.ChooseFree
 	}
-	up := upstreams[free("upstream", len(upstreams))]
+	ups := upstreams
+	if product == 4 {
+		// (quick tier: the full product of the routing dimensions over three upstream selections)
+		ups = []upstreamDef{upstreams[1], upstreams[6], upstreams[19]}
+		cfgFree = x.ChooseFree
+	}
+	up := ups[free("upstream", len(ups))]
 	dd := directDomains[cfgFree("direct-domains", len(directDomains))]
 	mode := []forwarder.ProxyLocalhostMode{forwarder.DenyProxyLocalhost, forwarder.AllowProxyLocalhost, forwarder.DirectProxyLocalhost}[cfgFree("proxy-localhost", 3)]
 	c := connectTo[ctFree("connect-to", len(connectTo))]
@@ -227,7 +246,7 @@ func scenario(x *explore.X, product int) {
 	// the first connection attempt to the right party may fail (refused) and be retried: the retry goes to the same party
 	firstFails := x.Choose("first-dial-attempt-refused", 2) == 1 && want.dial != ""
 	if firstFails {
-		w.Net.Plan[strings.ToLower(want.dial)] = simnet.RefuseOnce
+		w.Net.Plan[normDial(want.dial)] = simnet.RefuseOnce
 	}
 	x.Logf("upstream=%s direct-domains=%s localhost-mode=%s connect-to=%s target=%s kind=%d => %s dial %s", up.name, dd.name, mode, ctName, tg.name, kind, want.kind, want.dial)
 
@@ -286,7 +305,7 @@ func scenario(x *explore.X, product int) {
 	for a, s := range servers {
 		if n := s.L.Accepted(); n > 0 {
 			contacted = append(contacted, fmt.Sprintf("%s(x%d)", a, n))
-			if a == strings.ToLower(want.dial) && hopPeer == nil {
+			if a == normDial(want.dial) && hopPeer == nil {
 				hopPeer = s.Accept()
 			}
 		}
@@ -321,7 +340,7 @@ func scenario(x *explore.X, product int) {
 			// every attempt goes to the right party; the first is refused, exactly one connects
 			okAttempts := len(ds) >= 2 && ds[0].Outcome == "refused" && ds[len(ds)-1].Outcome == "connected"
 			for _, d := range ds {
-				if d.Addr != strings.ToLower(want.dial) {
+				if d.Addr != normDial(want.dial) {
 					okAttempts = false
 				}
 			}
@@ -331,7 +350,7 @@ func scenario(x *explore.X, product int) {
 			}
 			ds = ds[len(ds)-1:]
 		}
-		if len(ds) != 1 || ds[0].Addr != strings.ToLower(want.dial) || ds[0].Outcome != "connected" || len(contacted) != 1 {
+		if len(ds) != 1 || ds[0].Addr != normDial(want.dial) || ds[0].Outcome != "connected" || len(contacted) != 1 {
 			fail("wrong-party-contacted", "want exactly one connection, to %s", want.dial)
 			break
 		}
@@ -571,10 +590,12 @@ func historyScenario(x *explore.X, n int) {
 
 func TestC05(t *testing.T) {
 	s := explore.NewSuite(t, "C05", "exploration",
-		"configuration = upstream(21: none, static http/https/socks5, PAC scripts returning each result string of the alphabet incl. errors) x direct-domains(4) x proxy-localhost(3) x connect-to rule list(9, incl. chained/swapped rules) x first connection attempt {succeeds, is refused and retried} x target(6: names, explicit port, localhost, IPv6 literal, loopback IP) x kind(plain HTTP, CONNECT, inside MITM); deviation-bounded exploration (D=3 quick, 4 thorough) plus the full product upstream x direct-domains x localhost mode x target x kind (thorough) and connect-to x upstream x target x kind (both tiers); 99 endpoints listen on the in-memory network, the reference expectRoute names the one that must be dialled and checkHop verifies what it received first (request line form, CONNECT authority, SOCKS5 target, TLS hello); every other endpoint must stay untouched; plus (history) ONE proxy with a PAC script that answers by URL (port, path) and host, and EVERY sequence of 2 (quick) / 4 (thorough) requests out of 8 (absolute-form and origin-form GET, CONNECT, an intercepted session with a request inside, same host with different ports/paths, another host): each request must be routed by its own URL whatever was requested before; non-trivial = route compared")
+		"configuration = upstream(21: none, static http/https/socks5, PAC scripts returning each result string of the alphabet incl. errors) x direct-domains(4) x proxy-localhost(3) x connect-to rule list(9, incl. chained/swapped rules) x first connection attempt {succeeds, is refused and retried} x target(8: names, explicit port, localhost, IPv6 literal, loopback IP, upper-case and trailing-dot spellings) x kind(plain HTTP, CONNECT, inside MITM); deviation-bounded exploration (D=3 quick, 4 thorough) plus the full product upstream x direct-domains x localhost mode x target x kind (thorough: all 21 upstream selections, quick: 3 of them) and connect-to x upstream x target x kind (both tiers); 99 endpoints listen on the in-memory network, the reference expectRoute names the one that must be dialled and checkHop verifies what it received first (request line form, CONNECT authority, SOCKS5 target, TLS hello); every other endpoint must stay untouched; plus (history) ONE proxy with a PAC script that answers by URL (port, path) and host, and EVERY sequence of 2 (quick) / 4 (thorough) requests out of 8 (absolute-form and origin-form GET, CONNECT, an intercepted session with a request inside, same host with different ports/paths, another host): each request must be routed by its own URL whatever was requested before; non-trivial = route compared")
 	s.Assume = []string{"simnet owns every dial of the proxy", "PAC scripts are evaluated by the real pac package (goja)", "the address dialled is observed after the real DialRedirectFunc (connect-to) ran inside forwarder.Dialer"}
 	s.Add(explore.Scenario{Name: "bounded", Remote: true, MaxDev: map[string]int{"quick": 3, "thorough": 4},
 		Run: func(x *explore.X) { world.Run(t, x, func() { scenario(x, 0) }) }})
+	s.Add(explore.Scenario{Name: "product-routing-quick", Remote: true, Tiers: []string{"quick"}, MaxDev: map[string]int{"quick": 0},
+		Run: func(x *explore.X) { world.Run(t, x, func() { scenario(x, 4) }) }})
 	s.Add(explore.Scenario{Name: "product-routing", Remote: true, Tiers: []string{"thorough"}, MaxDev: map[string]int{"thorough": 0},
 		Run: func(x *explore.X) { world.Run(t, x, func() { scenario(x, 1) }) }})
 	s.Add(explore.Scenario{Name: "product-connect-to", Remote: true, MaxDev: map[string]int{"quick": 0, "thorough": 0},
